@@ -40,6 +40,10 @@ VARIANTS = {
     'plain': ('gcc', ['-O2', '-g', '-DCARQUET_VERIF'], []),
     'nohook': ('gcc', ['-O2', '-g'], []),
     'cov': ('gcc', ['-O0', '-g', '-DCARQUET_VERIF', '--coverage'], ['--coverage']),
+    # clang + libFuzzer instrumentation (input generator for C04/C08 thorough stages); no OpenMP: the target is single-threaded
+    # ASan only: clang's UBSan flags NULL+0 pointer arithmetic that is never dereferenced; UB classes are judged by the gcc replay
+    'fuzz': ('clang', ['-O1', '-g', '-fno-omit-frame-pointer', '-DCARQUET_VERIF', '-fsanitize=fuzzer-no-link,address'],
+             ['-fsanitize=fuzzer,address']),
 }
 
 ASAN_ENV = {
@@ -120,7 +124,7 @@ def build_lib(variant):
 
         def comp(src):
             obj = os.path.join(tmp, src.replace('/', '_')[:-2] + '.o')
-            cmd = [cc] + cflags + COMMON_DEFS + PER_FILE.get(src, []) + \
+            cmd = [cc] + cflags + [d for d in COMMON_DEFS if not (variant == 'fuzz' and d == '-fopenmp')] + PER_FILE.get(src, []) + \
                   ['-I', os.path.join(REPO, 'include'), '-I', os.path.join(REPO, 'src'),
                    '-c', os.path.join(REPO, src), '-o', obj]
             r = subprocess.run(cmd, capture_output=True, text=True)
@@ -174,7 +178,7 @@ def build_driver(name, variant, sources=None, extra_cflags=(), extra_ldflags=(),
               '-DCARQUET_ENABLE_SSE', '-DCARQUET_ENABLE_AVX2', '-DCARQUET_ENABLE_AVX512'] + list(extra_cflags) + \
               ['-I', os.path.join(REPO, 'include'), '-I', os.path.join(REPO, 'src'), '-I', os.path.join(VERIF, 'drivers')] + \
               srcs + [lib] + ldflags + list(extra_ldflags) + \
-              ['-lzstd', '-lz', '-lm', '-lpthread'] + ([] if gomp_shim else ['-fopenmp']) + \
+              ['-lzstd', '-lz', '-lm', '-lpthread'] + ([] if (gomp_shim or variant == 'fuzz') else ['-fopenmp']) + \
               ['-o', os.path.join(tmp, name)]
         r = subprocess.run(cmd, capture_output=True, text=True)
         if r.returncode != 0:
